@@ -113,13 +113,50 @@ class RemoveTrivialTypesTransformer(cst.CSTTransformer):
     return original_node
 
 
+class _ClassNameCollector(cst.CSTVisitor):
+  """Collects the names of the classes defined with a class statement."""
+
+  def __init__(self):
+    super().__init__()
+    self.class_names = set()
+
+  def visit_ClassDef(self, node: cst.ClassDef) -> None:
+    self.class_names.add(node.name.value)
+
+  def visit_FunctionDef(self, node: cst.FunctionDef) -> bool:
+    # The merge does not look for classes inside function bodies either.
+    return False
+
+
+class RemoveUndefinedClassesTransformer(cst.CSTTransformer):
+  """Drops stub classes that the source has no class statement for.
+
+  The stub of `P = NamedTuple("P", ...)` contains `class P(NamedTuple)`, and
+  the merge would otherwise insert that class definition into the source.
+  """
+
+  def __init__(self, class_names: set[str]):
+    super().__init__()
+    self._class_names = class_names
+
+  def leave_ClassDef(
+      self, original_node: cst.ClassDef, updated_node: cst.ClassDef
+  ) -> cst.ClassDef | cst.RemovalSentinel:
+    if original_node.name.value not in self._class_names:
+      return cst.RemovalSentinel.REMOVE
+    return updated_node
+
+
 def merge_sources(*, py: str, pyi: str) -> str:
   try:
     py_cst = cst.parse_module(py)
+    class_collector = _ClassNameCollector()
+    py_cst.visit(class_collector)
     pyi_cst = (
         cst.parse_module(pyi)
         .visit(RemoveAnyNeverTransformer())
         .visit(RemoveTrivialTypesTransformer())
+        .visit(RemoveUndefinedClassesTransformer(class_collector.class_names))
     )
     merged_cst = _merge_csts(py_tree=py_cst, pyi_tree=pyi_cst)
     return merged_cst.code
